@@ -686,8 +686,39 @@ class Interp:
         for truth in (True, False):
             ts = self.refine(test, v, truth, s.copy())
             if ts is not None:
+                tag = getattr(v, "norm_tag", None)
+                if not truth and isinstance(tag, str) and tag.startswith("checker-result:") and self.checkers_pass_non_strings():
+                    # the answer of a registered format function is falsy only for strings: every built-in one returns True for
+                    # anything else before it looks at the value (R12.5 decides that; custom checkers are outside the package)
+                    arg = tag.split(":", 1)[1]
+                    cur = ts.env.get(arg)
+                    if cur is not None and cur.kinds - frozenset(["str"]):
+                        only = cur.only(["str"])
+                        if only.empty:
+                            continue
+                        ts.env[arg] = only
                 outs.append((ts, truth))
         return outs
+
+    def checkers_pass_non_strings(self):
+        if not hasattr(self.prog, "_checkers_guard"):
+            ok = False
+            try:
+                from .formats import format_registry
+                from .rules.c12 import string_guard_verdict
+                from .rules.fmtsem import guard_eval
+                ok = True
+                seen = set()
+                for ent in format_registry(self.prog):
+                    if ent.func in seen or not ent.present:
+                        continue
+                    seen.add(ent.func)
+                    if string_guard_verdict(ent.func) is not None and guard_eval(self.prog, ent.func) is not None:
+                        ok = False
+            except Exception:
+                ok = False
+            self.prog._checkers_guard = ok
+        return self.prog._checkers_guard
 
     def _inline_predicate(self, test, s, _depth=[0]):
         if not isinstance(test, ast.Call) or test.keywords or _depth[0] > 2:
@@ -1222,7 +1253,7 @@ class Interp:
     def ev_JoinedStr(self, e, s):
         for v in e.values:
             if isinstance(v, ast.FormattedValue):
-                self.eval(v.value, s)
+                self.to_text(self.eval(v.value, s), e, "f-string")
         return AV(["str"])
 
     def ev_IfExp(self, e, s):
@@ -1282,6 +1313,34 @@ class Interp:
         r = self.eval(e.right, s)
         return self.binop(e.op, l, r, e, s)
 
+    def may_hold_big_int(self, av, depth=0):
+        """can the text of this value contain an integer of unbounded size (itself, or somewhere inside an array/object)?"""
+        if av is None or depth > 3:
+            return depth > 3
+        if "int" in av.kinds and av.big and not (av.const is not None and av.const[0] == "c"):
+            return True
+        if av.kinds & frozenset(["list", "set", "gen", "tuple"]):
+            if av.items is not None:
+                if any(self.may_hold_big_int(x, depth + 1) for x in av.items):
+                    return True
+            elif av.elem is None or self.may_hold_big_int(av.elem, depth + 1):
+                return True
+        if "dict" in av.kinds and (av.vals is None or self.may_hold_big_int(av.vals, depth + 1)):
+            return True
+        return False
+
+    def to_text(self, av, node, how):
+        """str()/repr()/%r/%s/format of a value: since Python 3.11 converting an int of more than sys.int_max_str_digits (4300)
+        digits to decimal text raises ValueError -- also from inside the repr of a list or dict that holds one."""
+        if av is not None and self.cur_func is not None and self.cur_func.qual == "_format.FormatChecker.check" and self.checkers_pass_non_strings():
+            # FormatChecker.check words its message only after the registered function answered falsy or raised, which every
+            # built-in one does for strings only (each returns True for a non-string before looking at it: R12.5, re-derived here);
+            # a custom function rejecting numbers is the caller's, outside the package
+            av = av.only(["str"]) if "str" in av.kinds else av
+        if av is not None:
+            self.need(not self.may_hold_big_int(av), "ValueError", node,
+                      "text of an integer of unbounded size (%s: int -> str conversion refuses more than 4300 digits)" % how, av.describe())
+
     def binop(self, op, l, r, node, s):
         num = frozenset(["int", "float", "bool"])
         if isinstance(op, ast.Mod) and l.kinds <= frozenset(["str"]):
@@ -1305,6 +1364,10 @@ class Interp:
                         self.need(not ("int" in av.kinds and av.big), "OverflowError", node, "%%%s converts an integer of unbounded size to a float" % c, av.describe())
                     elif c in "diouxXc":
                         self.need(av.kinds <= frozenset(["int", "float", "bool"]), "TypeError", node, "%%%s of a non-number" % c, av.describe())
+                        if c in "diu":
+                            self.to_text(av, node, "%%%s" % c)
+                    elif c in "rsa":
+                        self.to_text(av, node, "%%%s" % c)
             elif "tuple" in r.kinds and r.items is None:
                 pass
             return AV(["str"])
